@@ -285,11 +285,12 @@ int32_t jls_buf_rd_str(struct jls_buf_s * self, const char ** value) {
         if (s->cur >= buf_end) {
             ROE(strings_alloc(self));
             // copy over partial.
-            while (str <= buf_end) {
+            while (str < s->cur) {
                 *self->strings_tail->cur++ = *str++;
             }
             s = self->strings_tail;
             str = self->strings_tail->buffer;
+            buf_end = s->buffer + sizeof(s->buffer) - 1;
         }
 
         ch = (char) *self->cur++;
